@@ -3,12 +3,12 @@ CFG = dict(
     level="proof",
     design_ref="DESIGN.md §7.16, §8 item 8",
     level_text="PARTIAL (wall-clock tick timing, the ExecuteDuties goroutines and the one-third-slot wait are outside the model; ticker uniqueness is a hypothesis). "
-               "Lean 4 theorems over the model of the attester / proposer / sync-committee handlers (code after fix 1e0cc1057) and the duty store, for ALL networks "
+               "Lean 4 theorems over the model of the attester / proposer / sync-committee handlers (code after fixes 1e0cc1057, f167f5eb9) and the duty store, for ALL networks "
                "(slots per epoch, epochs per period), initial clocks and ALL event lists (ticks, reorg(previous|current) notices, indices-change notices, every fetch paired with "
                "noIdx|fail|ok assignment), by induction: at most once (tick slots strictly increasing); only at the tick of its own slot and inside the shouldExecute window (no "
                "hypothesis); only the most recently fetched assignment (no hypothesis); exactly once if fetched, for all three handlers, whenever no tick is handled after an event "
                "that carries a later slot (notices may be handled arbitrarily late). Without that order condition the exactly-once statement is still refuted for the attester "
-               "handler (a reorg(previous) notice of the next epoch handled before a pending tick): known finding, replayed on the real handler. Second known finding (oracle only; the Lean monitor voids obligations at a failed fetch): the proposer handler never retries a failed re-fetch after a reorg(current) notice. The four defects of the pre-fix "
+               "handler (a reorg(previous) notice of the next epoch handled before a pending tick): known finding, replayed on the real handler. The proposer handler's missing retry of a failed first fetch (fixed by f167f5eb9) is a regression lemma + theorem (a failed fetch-first tick is retried at the next tick). The four defects of the pre-fix "
                "tree are regression lemmas (old handlers fail / fixed handlers pass) and regression corpus cases.",
     level_note="Trusted: Lean kernel (axioms propext/Classical.choice/Quot.sound only), the go/ast fact extractor, the harness (mocks of slot ticker, wall clock, beacon node, "
                "validator controller; in small-network cases also of slots-per-epoch / epochs-per-period), its canonicalisation and its oracle. The handlers run in their own "
